@@ -24,19 +24,21 @@ var coarseSq = map[string]string{
 	"distinct-real": "real-spectrum", "zero-eig": "real-spectrum", "diagonal": "already-reduced", "nonnormal": "real-spectrum", "triangular": "already-reduced",
 	"repeated-real": "repeated", "identity": "already-reduced", "clustered-real": "clustered",
 	"complex-pairs": "complex-pairs", "mixed": "complex-pairs", "nonnormal-complex": "complex-pairs",
+	"partially-reduced": "partially-reduced", "block-diagonal": "partially-reduced",
 	"hessenberg": "already-reduced", "small-int": "unstructured", "graded": "unstructured", "zero-row-col": "unstructured", "rot2x2": "2x2-directed",
 }
 
 var coarseSym = map[string]string{
 	"distinct": "distinct", "zero-eig": "distinct", "indefinite": "distinct", "small-int": "distinct", "graded": "graded", "gram": "distinct", "zero-row-col": "distinct",
 	"repeated": "repeated", "clustered": "clustered", "identity": "already-reduced", "diagonal": "already-reduced", "tridiagonal": "already-reduced",
-	"early-offdiag": "graded",
+	"early-offdiag": "graded", "partially-reduced": "partially-reduced", "block-diagonal": "partially-reduced",
 }
 
 var coarseTall = map[string]string{
 	"distinct": "dense", "repeated": "dense", "clustered": "dense", "small-int": "dense", "graded": "dense", "dense-random": "dense",
 	"zero-column": "dense", "zero-row": "dense", "rank-deficient": "dense-rank-deficient",
-	"bidiagonal": "already-bidiagonal", "diagonal": "already-bidiagonal", "identity": "already-bidiagonal", "bidiagonal-zero-diag": "bidiagonal-zero-diagonal",
+	"partially-reduced": "partially-reduced",
+	"bidiagonal":        "already-bidiagonal", "diagonal": "already-bidiagonal", "identity": "already-bidiagonal", "bidiagonal-zero-diag": "bidiagonal-zero-diagonal",
 }
 
 // twoCalls runs call(A, useInSitu) on one input, or - with in-situ buffers - on
@@ -220,7 +222,7 @@ func Run(c *fw.Ctx) {
 		t := types[cs.Index%2]
 		n := 1 + (cs.Index/2)%7
 		m := n + []int{0, 0, 1, 3}[r.Intn(4)]
-		fineList := []string{"distinct", "repeated", "clustered", "bidiagonal", "diagonal", "identity", "small-int", "graded", "dense-random"}
+		fineList := []string{"distinct", "repeated", "clustered", "bidiagonal", "diagonal", "identity", "small-int", "graded", "dense-random", "partially-reduced"}
 		fine := fineList[(cs.Index/14)%len(fineList)]
 		inSitu := r.Chance(0.35)
 		inputs := []*la.Mat{genTall(fine, m, n, r), genTall(fine, m, n, r)}
